@@ -108,7 +108,7 @@ theorem dataReceived_agrees (E : C06.Env) (cfg : C07.Cfg) (CR : CfgRec E cfg) (i
       · fin_agr
     · have hcls : cls ≠ "BadHandshake" := fun hh => hbh (f2.mp hh)
       have hnp : ¬ (((cls = "Unsupported" ∨ cls = "OutOfFuel") ∨ cls = "$break") ∨ cls = "$continue") := by
-        simpa [isPseudoExc] using f1
+        simpa [isPseudoExcT] using f1
       h_eval [tbl_Connection, m_Connection_dataReceived, hcm, htr, hnp, hcls, hbh]
       refine ⟨?_, ?_, e2⟩
       · fin_rel
